@@ -8,6 +8,7 @@
       load/store rules (layer 2); widths from objdump's `<SIZE> PTR` annotation
   D2b the displacement of a memory operand is emitted as one (sign-extended) byte only where
       it is known to lie in [-128, 127]
+  D6  fixed registers a rule parks (push / executor slot) come back from the same place into the same register
   D5  array pointers in OrcExecutor.arrays[] are loaded, stored and advanced at pointer width
   D3  who may store: array stores only in store rules, through the destination pointer
   D4  executor scratch slots written by generated code form a closed set
@@ -191,6 +192,12 @@ def run(ctx):
     # ---- D3 / D4 ---------------------------------------------------------------------
     d34(db, rep)
     d5(db, rep)
+    # D6: registers parked around a scalar fallback come back unswapped (they hold the array pointers)
+    from x86enc import check_save_restore
+    xf = [f for f in db.all_functions() if f.relfile.startswith("orc/orcrules-") and ("sse" in f.relfile or "mmx" in f.relfile or "avx" in f.relfile)]
+    n6 = check_save_restore(db, xf, rep, "D6-SAVE-RESTORE")
+    if n6 < 2:
+        raise AnalysisBroken("only %d emitters with parked registers found in the x86 rule files" % n6)
 
 
 # ---------------------------------------------------------------------------
